@@ -22,7 +22,11 @@ Proved here, for all inputs / schedules of the model (Model/C20.lean):
                 `plan_encode_leading_nulls_old` (the encoder before the fix can never be loaded again).
   * summary   — `findMedian_total`, `stats_total` (no index out of range for ANY length, nested quartile
                 calls included), `stats_out_of_range_old` (old code: every input of length 0–5 and 7 panics).
-  * expected  — `expectedPerforms_append`, `expectedPerforms_unexpected`.
+  * expected  — `expectedPerforms_eq_spec` (the registered total is the count the plan expects),
+                `expectedPerforms_append`, `expectedPerforms_unexpected`.
+  * transmit  — `transmit_accepts_once`: with `Transmit` one critical section, each (report, round) is accepted
+                exactly once in every order of the nodes' calls (the lock discipline itself is a fact about the
+                code: checked by an un-timed concurrent stress on the real loader and by the race build).
 NOT proved (no model here expresses them; reported from the runs as support only):
   termination and summary printing of the real simulator under libocr's schedules,
   data-race freedom, and the run-record predicate (`recordOk`) for real runs.
@@ -820,11 +824,86 @@ theorem expectedPerforms_unexpected (ups : List Upkeep) (logs : List LogEv) (h :
     rw [ih (fun x hx => h x (by simp [hx]))]
     simp [expectedOf, hu]
 
+private theorem logTriggersUpkeep_eq (l : LogEv) (u : Upkeep) : logTriggersUpkeep l u = logCounts u l := by
+  unfold logTriggersUpkeep logCounts
+  by_cases h1 : u.createInBlock ≤ l.triggerAt <;> by_cases h2 : (l.triggerValue == u.triggeredBy) = true <;>
+    by_cases h3 : u.alwaysEligible = true <;> simp [h1, h2, h3, ge_iff_le]
+
+/-- **`calculateExpectedPerformEvents` computes the count the plan expects** (the declarative `expectedSpec`),
+for every list of generated upkeeps and logs. -/
+theorem expectedPerforms_eq_spec (ups : List Upkeep) (logs : List LogEv) :
+    expectedPerforms ups logs = expectedSpec ups logs := by
+  have hf : (fun l => logTriggersUpkeep l ·) = fun (u : Upkeep) => fun l => logCounts u l := by
+    funext u l; exact logTriggersUpkeep_eq l u
+  induction ups with
+  | nil => rfl
+  | cons u us ih =>
+    simp only [expectedPerforms, expectedSpec, List.map_cons, List.sum_cons] at *
+    by_cases he : u.expected = true
+    · simp only [List.filter_cons, he, if_true, List.map_cons, List.sum_cons]
+      rw [ih]
+      congr 1
+      cases ht : u.type <;> simp [expectedOf, he, ht, logTriggersUpkeep_eq]
+    · simp only [List.filter_cons, he, Bool.false_eq_true, if_false]
+      rw [ih]
+      simp [expectedOf, he]
+
 /-- only_log_trigger.json: 1 upkeep created before three logs, 5 before three, 7 before two: 32 -/
 example : expectedPerforms
     ((List.replicate 1 ⟨true, .logTrigger, [], 862, "t", true⟩) ++ (List.replicate 5 ⟨true, .logTrigger, [], 864, "t", true⟩) ++
      (List.replicate 7 ⟨true, .logTrigger, [], 878, "t", true⟩))
     [⟨872, "t"⟩, ⟨882, "t"⟩, ⟨892, "t"⟩] = 32 := by decide
+
+/-! ### transmit loader: every (report, round) is accepted exactly once -/
+
+private theorem acceptedFrom_spec (keys : List String) :
+    ∀ s : TLState, (acceptedFrom s keys).Nodup ∧
+      (∀ k, k ∈ acceptedFrom s keys ↔ (k ∈ keys ∧ k ∉ s.transmitted)) := by
+  induction keys with
+  | nil => intro s; simp [acceptedFrom]
+  | cons x xs ih =>
+    intro s
+    by_cases hx : x ∈ s.transmitted
+    · have ht : s.transmit x = (s, false) := by simp [TLState.transmit, hx]
+      simp only [acceptedFrom, ht, Bool.false_eq_true, if_false]
+      refine ⟨(ih s).1, fun k => ?_⟩
+      rw [(ih s).2 k]
+      constructor
+      · rintro ⟨h1, h2⟩; exact ⟨by simp [h1], h2⟩
+      · rintro ⟨h1, h2⟩
+        rcases List.mem_cons.mp h1 with h | h
+        · subst h; exact absurd hx h2
+        · exact ⟨h, h2⟩
+    · have ht : s.transmit x = ({ transmitted := x :: s.transmitted, queue := s.queue ++ [x] }, true) := by
+        simp [TLState.transmit, hx]
+      simp only [acceptedFrom, ht, if_true]
+      have ih' := ih { transmitted := x :: s.transmitted, queue := s.queue ++ [x] }
+      refine ⟨List.nodup_cons.mpr ⟨?_, ih'.1⟩, fun k => ?_⟩
+      · intro hmem
+        have := (ih'.2 x).mp hmem
+        exact this.2 (by simp)
+      · simp only [List.mem_cons, ih'.2 k, not_or]
+        constructor
+        · rintro (h | ⟨h1, h2, h3⟩)
+          · subst h; exact ⟨Or.inl rfl, hx⟩
+          · exact ⟨Or.inr h1, h3⟩
+        · rintro ⟨h1 | h1, h2⟩
+          · exact Or.inl h1
+          · by_cases hk : k = x
+            · exact Or.inl hk
+            · exact Or.inr ⟨h1, hk, h2⟩
+
+/-- **Accepted exactly once.**  In whatever order the nodes' `Transmit` calls are served (every call being one
+critical section), each submitted `(report, round)` key is accepted exactly once, however often and by however
+many nodes it is submitted, and nothing else is accepted. -/
+theorem transmit_accepts_once (keys : List String) :
+    (accepted keys).Nodup ∧ ∀ k, k ∈ accepted keys ↔ k ∈ keys := by
+  have h := acceptedFrom_spec keys {}
+  refine ⟨h.1, fun k => ?_⟩
+  have := h.2 k
+  simpa [accepted] using this
+
+example : accepted ["r1", "r1", "r2", "r1", "r2"] = ["r1", "r2"] := by decide
 
 /-! ### run record (specification only — see the header: not provable of real runs from a model) -/
 
